@@ -15,6 +15,19 @@ def getMatch (j : Json) : Except String MatchRow := do
   return { source := ← fldOptStr j "source", target := ← fldOptStr j "target",
            affinity := ← fldRat j "affinity", score := ← fldOptRat j "score" }
 
+/-- a binary64 value: "nan" | "inf" | "-inf" | an exact rational -/
+def getF (j : Json) : Except String F := do
+  match j with
+  | .str "nan" => return .nan
+  | .str "inf" => return .pinf
+  | .str "-inf" => return .ninf
+  | _ => return .fin (← getRat j)
+
+def fldOptF (j : Json) (k : String) : Except String (Option F) :=
+  match fldOpt j k with
+  | none => .ok none
+  | some v => do return some (← getF v)
+
 def handle (op : String) (a : Json) : Except String Json := do
   match op with
   | "clip_eval" =>
@@ -27,6 +40,8 @@ def handle (op : String) (a : Json) : Except String Json := do
   | "project" => return boolJ (projectOk (← fldStrs a "task_clips") (← fldStrs a "ann_clips"))
   | "clip" => return boolJ (clipOk (← fldRat a "start") (← fldRat a "end"))
   | "unit" => return boolJ (optUnitOk (← fldOptRat a "x"))
+  | "unit_f" => return boolJ (optUnitOkF (← fldOptF a "x"))
+  | "clip_f" => return boolJ (clipOkF (← getF (← fld a "start")) (← getF (← fld a "end")))
   -- inputs with no rational reading (missing / null / non-numeric): never a valid object
   | "malformed" => return boolJ false
   | _ => .error s!"C04: unknown op {op}"
